@@ -247,7 +247,7 @@ def _is_one(ix, t, pol, size_of):
   return (op == ">" and n == 1) or (op == ">=" and n == 2)
 
 
-@rule("R7.7", "C07", floor=8)
+@rule("R7.7", "C07", floor=7)
 def r7_7(ctx):
   """IsVisible / HasCombination / strict Filter answer with Solver::Solve on every path."""
   ix = cxx.get_index(ctx)
@@ -277,12 +277,12 @@ def r7_7(ctx):
               "approximations belong to Prune / the non-strict Filter",
               {"exits_bypassing_the_solver": [(_line(x), w) for x, w in res["bad"]],
                "returns": res["n"]})
-      continue
-    if res["unknown"] or res["query"] is None:
+    elif res["unknown"] or res["query"] is None:
       raise AnalysisError(f"{fn.qual}: how the answer is obtained is not "
                           f"understood: {(res['unknown'] or ['no return'])[0]}")
-    ctx.ok(f"{fn.qual}:answer-from-solver", fn.file, fn.line, {"returns": res["n"]})
-    if fn in roots:
+    else:
+      ctx.ok(f"{fn.qual}:answer-from-solver", fn.file, fn.line, {"returns": res["n"]})
+    if fn in roots and res["query"] is not None:
       g, nd, text = _declared_query(fn)
       ctx.check(res["query"] == (g, nd), f"{fn.qual}:asks-its-own-query", fn.file, fn.line,
                 f"{fn.qual} must put the query {text} to the solver; the goal "
